@@ -77,7 +77,7 @@ func famHist(out string) {
 		rng := hutil.NewRng(1000 + uint64(i))
 		w := worldFromShared(rng, 5)
 		p := HistParams{Steps: steps - 8 + rng.Intn(16), Wallets: 5, PBadTx: 10, PCorrupt: 10, PFork: 20, PReorg: 12, DumpEvery: 7, Crashes: 2}
-		switch i % 13 {
+		switch i % 14 {
 		case 1:
 			p.PFork = 45 // fork heavy
 		case 2:
@@ -98,6 +98,8 @@ func famHist(out string) {
 			p.Steps, p.PBadTx, p.PCorrupt, p.PFork, p.PReorg, p.Scenario = 6, 0, 0, 0, 0, "stalekey"
 		case 10:
 			p.Steps, p.PBadTx, p.PCorrupt, p.PFork, p.PReorg, p.Scenario = 6, 0, 0, 0, 0, "badfork"
+		case 13:
+			p.Steps, p.PBadTx, p.PCorrupt, p.PFork, p.PReorg, p.Scenario = 24, 0, 0, 5, 5, "sharedtx"
 		case 12:
 			p.Steps, p.PBadTx, p.PCorrupt, p.PFork, p.PReorg, p.Scenario = 8, 0, 0, 0, 0, "batches"
 		case 11:
